@@ -11,6 +11,7 @@ mod regconc;
 mod channel;
 mod iterconc;
 mod entries;
+mod flags;
 
 #[global_allocator]
 static GLOBAL: sched::CountingAlloc = sched::CountingAlloc;
@@ -27,6 +28,7 @@ fn main() {
         "channel" => channel::main(),
         "iterconc" => iterconc::main(),
         "entries" => entries::main(),
+        "flags" => flags::main(),
         "channel-table" => channel::table_main(),
         "channel-stress" => channel::stress_main(),
         _ => {
